@@ -137,7 +137,7 @@ func C19(r *drv.Run) {
 	if !quick(r) {
 		rounds = 3000
 	}
-	r.Rule = "rounds of 8..32 goroutines issuing Compile (sources with and without regex groups, with loops, with relocated global patterns, sources that fail in the lexer / parser / regex sub-parser / generator / type checker, sources of about a kilobyte), Compile+Run, Run on shared pre-compiled programs and Run followed by Json()/FormattedJson() of the result list, on short texts and on texts long enough for loops to pass 64, 128 and 256 iterations in one attempt, all released from one barrier, in a -race build of the worker; yield hooks (H2 every lexer read, H3 parser/generator sites, H1 every VM step) armed in half of the rounds. Oracle 1: the Go race detector (GORACE halt_on_error=0, log files parsed, reports de-duplicated by the pair of outermost repository frames): any report is a violation. Oracle 2: every concurrent call's result digest (canonical bytecode with loop ids normalised; all match fields; the rendered JSON texts) equals the digest of the same call executed alone in a fresh sequential worker. Oracle 3: canonical bytecode of the shared programs unchanged by the round. Non-trivial = a call whose [call,return] interval overlapped another call's on the shared monotonic clock; distinct by (round, call index)."
+	r.Rule = "rounds of 8..32 goroutines issuing Compile (sources with and without regex groups, with loops, with relocated global patterns, sources that fail in the lexer / parser / regex sub-parser / generator / type checker, sources of about a kilobyte), Compile+Run, Run on shared pre-compiled programs and Run followed by Json()/FormattedJson() of the result list, on short texts and on texts long enough for loops to pass 64, 128 and 256 iterations in one attempt, all released from one barrier, in a -race build of the worker; yield hooks (H2 every lexer read, H3 parser/generator sites, H1 every VM step) armed in half of the rounds. Plus compile storms: 16 goroutines each compiling a few tiny sources two hundred times over without yields (9 600 compilations per storm), every repetition compared. Oracle 1: the Go race detector (GORACE halt_on_error=0, log files parsed, reports de-duplicated by the pair of outermost repository frames): any report is a violation. Oracle 2: every concurrent call's result digest (canonical bytecode with loop ids normalised; all match fields; the rendered JSON texts) equals the digest of the same call executed alone in a fresh sequential worker. Oracle 3: canonical bytecode of the shared programs unchanged by the round. Non-trivial = a call whose [call,return] interval overlapped another call's on the shared monotonic clock; distinct by (round, call index)."
 	r.Assumptions = []string{
 		"the race detector only sees races on schedules that occur; yields and repetition raise the odds, not to certainty",
 		"the harness's own monitor state is atomic in concurrent mode; the step and lexer counters are switched off there",
@@ -251,6 +251,56 @@ func C19(r *drv.Run) {
 			if i%40 == 0 {
 				r.Sample(map[string]any{"goroutines": g, "calls": len(calls), "yield_hooks": c.Yield, "first_calls": fmt.Sprint(calls[:4])})
 			}
+		}}
+	})
+	// compile storms: 16 goroutines, each compiling the same few tiny sources two hundred times over, no yields - very
+	// many compilations begin and end within the same microsecond
+	tiny := [][]byte{[]byte("find all 'a'"), []byte("find all 'b'"), []byte("find all 'ab' 'c'"), []byte("find all @/(a)b/"), []byte("find all 'a' $")}
+	tinySeq := map[int]string{}
+	r.Exec(len(tiny), drv.ExecOpts{Batch: 8}, func(i int) *drv.Item {
+		c := wire.Case{Op: "hist", Srcs: tiny, Texts: texts[:1], Calls: []wire.Call{{Kind: "compile", Prog: i}}}
+		return &drv.Item{Case: c, Check: func(res *wire.Result) {
+			if res.Died || res.Panic != nil || len(res.Calls) != 1 {
+				r.Inconclusive("sequential reference call failed (tiny source)")
+				return
+			}
+			mu.Lock()
+			tinySeq[i] = res.Calls[0].Digest
+			mu.Unlock()
+		}}
+	})
+	storms := 6
+	if !quick(r) {
+		storms = 120
+	}
+	r.Exec(storms, drv.ExecOpts{Batch: 2, Race: true, Env: env}, func(i int) *drv.Item {
+		rng := gen.Derive(r.Seed, "C19storm", i)
+		var calls []wire.Call
+		for g := 0; g < 16; g++ {
+			for k := 0; k < 3; k++ {
+				calls = append(calls, wire.Call{Kind: "compile", Prog: rng.Intn(len(tiny)), G: g})
+			}
+		}
+		c := wire.Case{Op: "conc", Srcs: tiny, Texts: texts[:1], Calls: calls, Goroutines: 16, Rounds: 200}
+		return &drv.Item{Case: c, Check: func(res *wire.Result) {
+			r.Eval(len(res.Calls))
+			if res.Died && (res.Guard == "cpu" || res.Guard == "heap") {
+				r.Count("rounds_stopped_by_resource_guard", 1)
+				return
+			}
+			if res.Died || res.Panic != nil {
+				r.Violate(&drv.Violation{Sig: "compile-storm-crashed:" + classifyFatal(res.Stderr), Panic: firstLines(res.Stderr, 4), Case: &c})
+				return
+			}
+			for _, cl := range res.Calls {
+				if cl.Panic != "" || cl.Digest != tinySeq[cl.Prog] {
+					r.Violate(&drv.Violation{Sig: "concurrent-call-differs-from-sequential:compile-storm", Src: string(tiny[cl.Prog]), Case: &c,
+						Detail: map[string]any{"sequential_digest": tinySeq[cl.Prog], "concurrent_digest": cl.Digest, "what": cl.Panic}})
+					return
+				}
+			}
+			r.Count("compile_storm_compilations", len(res.Calls)*200)
+			r.Nontrivial(fmt.Sprintf("storm%d", i))
 		}}
 	})
 	nrep, keysSeen, first := parseRaceLogs(raceDir)
